@@ -2,8 +2,8 @@
 import glob, json, os, shutil
 import vlib
 
-TARGETS = ["Base/Corr.vo", "C15/Model.vo", "C15/Corr.vo", "C15/Spec.vo", "C15/SpecTest.vo",
-           "C15/ProofsSum.vo", "C15/ProofsFwd.vo", "C15/ProofsBwd.vo", "C15/ProofsOpt.vo", "C15/ProofsVit.vo",
+TARGETS = ["Base/Corr.vo", "C15/Model.vo", "C15/ModelBuf.vo", "C15/Corr.vo", "C15/Spec.vo", "C15/SpecTest.vo",
+           "C15/ProofsSum.vo", "C15/ProofsFwd.vo", "C15/ProofsBwd.vo", "C15/ProofsBuf.vo", "C15/ProofsOpt.vo", "C15/ProofsVit.vo",
            "C15/ProofsVitInst.vo", "C15/ProofsMix.vo", "C15/ProofsLog.vo", "C15/ProofsTop.vo",
            "C15/Proofs.vo", "C15/Props.vo"]
 PROPS = ["C15/Props.v"]
